@@ -807,6 +807,14 @@ func (decWorld) Exec(prop string, t *Trace) *Result {
 				for _, h := range ihs {
 					offs = append(offs, base+h.Off)
 				}
+				if p.ProtIsBstr && len(p.Prot) > 0 {
+					pbase := p.ProtEnd - len(p.Prot)
+					var phs []cborHead
+					_, _ = walkItem(p.Prot, 0, 0, &phs)
+					for _, h := range phs {
+						offs = append(offs, pbase+h.Off)
+					}
+				}
 			}
 			stride := op.B
 			if stride < 1 {
